@@ -223,6 +223,9 @@ func readCollectionSize(source io.Reader, version primitive.ProtocolVersion) (si
 		sizeInt16, err = primitive.ReadShort(source)
 		size = int(sizeInt16)
 	}
+	if err == nil && size < 0 {
+		err = collectionSizeNegative(size)
+	}
 	if err != nil {
 		err = fmt.Errorf("cannot read collection size: %w", err)
 	}
